@@ -768,7 +768,7 @@ class BosonicBackend(BaseBosonic):
             self.circuit.apply_channel(X2, Y2)
         else:
             X2 = self.circuit.expandS(modes, X)
-            self.circuit.apply_channel(X, Y)
+            self.circuit.apply_channel(X2, Y)
 
     def measure_homodyne(self, phi, mode, shots=1, select=None, **kwargs):
         # Phi is the rotation of the measurement operator, hence the minus
